@@ -7,6 +7,7 @@ CONSTANTS
   MaxFaults = 1
   MaxEnv = 2
   ForeignAt = "none"
+  RenderFails = TRUE
   FailKinds = {}
 VIEW view
 ACTION_CONSTRAINT Emit
